@@ -4,6 +4,7 @@
  *                   p3 random long lengths; (thorough) one multi-MiB message; bundled hashref as second opinion
  *   --mode stream   C11: all compositions of every n <= p1 into update calls; zero-length updates at every gap
  *                   (n <= p2); p3 random chunkings / interleaved histories over 4 state objects with shadows
+ *   --mode huge     (thorough) single calls of 2^32+37 bytes vs the same bytes in pieces below 2^32; p1 = 0 hash, 1 hmac, 2 pending partial, 9 all
  *   --mode hmac     C12: key lengths 0..p1 x message-length list, one-shot / streamed / reinit histories
  */
 #include "common.h"
@@ -16,7 +17,7 @@ int crypto_auth(unsigned char *out, const unsigned char *in, unsigned long long 
 #endif
 
 static gbuf_t gIN, gOUT, gKEY;
-static unsigned long long n_eval, n_model, n_oneshot, n_seq, n_updates, n_zero_updates, n_hist_ops, n_finalize,
+static unsigned long long n_huge_bytes, n_eval, n_model, n_oneshot, n_seq, n_updates, n_zero_updates, n_hist_ops, n_finalize,
     n_ref, n_hmac, n_hmac_stream, n_reinit, n_bytes;
 
 static void digest_mismatch(const char *key, const char *what, const uint8_t *exp, const uint8_t *got)
@@ -227,6 +228,70 @@ static void stream_megabyte(const args_t *a, long idx)
     free(msg);
 }
 
+/* ---- single calls of 2^32 bytes and more (thorough): one-shot == the same bytes fed in pieces below 2^32 ----
+ * The bit-serial model needs hours for 4 GiB; the library's behaviour for pieces below 2^32 is pinned to the model by
+ * every other case, so the streamed digests are the reference here.  Three computations run in three threads. */
+#include <pthread.h>
+#include <sys/mman.h>
+typedef struct { int kind, variant; const uint8_t *msg; size_t total; const uint8_t *key; size_t keylen; uint8_t out[32]; } huge_job_t;
+static void *huge_thread(void *arg)
+{
+    huge_job_t *j = (huge_job_t *)arg;
+    size_t pos = 0, n, k = 0;
+    static const size_t P1[] = {((size_t)1 << 30) - 3, ((size_t)1 << 30) + 5, ((size_t)1 << 29) + 17, ((size_t)1 << 31) - 1};
+    if (j->variant == 0) {               /* hash */
+        tinyjambu_hash_state_t st;
+        if (j->kind == 0) { tinyjambu_hash(j->out, j->msg, j->total); return NULL; }
+        tinyjambu_hash_init(&st);
+        if (j->kind == 1) { tinyjambu_hash_update(&st, j->msg, 0xFFFFFFFFu); tinyjambu_hash_update(&st, j->msg + 0xFFFFFFFFu, j->total - 0xFFFFFFFFu); }
+        else while (pos < j->total) { n = P1[k++ % 4]; if (n > j->total - pos) n = j->total - pos; tinyjambu_hash_update(&st, j->msg + pos, n); pos += n; }
+        tinyjambu_hash_finalize(&st, j->out);
+    } else if (j->variant == 1) {        /* hmac */
+        tinyjambu_hmac_state_t st;
+        if (j->kind == 0) { tinyjambu_hmac(j->out, j->key, j->keylen, j->msg, j->total); return NULL; }
+        tinyjambu_hmac_init(&st, j->key, j->keylen);
+        if (j->kind == 1) { tinyjambu_hmac_update(&st, j->msg, 0xFFFFFFFFu); tinyjambu_hmac_update(&st, j->msg + 0xFFFFFFFFu, j->total - 0xFFFFFFFFu); }
+        else while (pos < j->total) { n = P1[k++ % 4]; if (n > j->total - pos) n = j->total - pos; tinyjambu_hmac_update(&st, j->msg + pos, n); pos += n; }
+        tinyjambu_hmac_finalize(&st, j->key, j->keylen, j->out);
+    } else {                             /* hash: 7-byte update, then ONE update with everything else (partial block pending + >= 2^32 bytes) */
+        tinyjambu_hash_state_t st;
+        tinyjambu_hash_init(&st);
+        if (j->kind == 0) { tinyjambu_hash_update(&st, j->msg, 7); tinyjambu_hash_update(&st, j->msg + 7, j->total - 7); }
+        else if (j->kind == 1) { tinyjambu_hash_update(&st, j->msg, 0xFFFFFFFFu); tinyjambu_hash_update(&st, j->msg + 0xFFFFFFFFu, j->total - 0xFFFFFFFFu); }
+        else while (pos < j->total) { n = P1[k++ % 4]; if (n > j->total - pos) n = j->total - pos; tinyjambu_hash_update(&st, j->msg + pos, n); pos += n; }
+        tinyjambu_hash_finalize(&st, j->out);
+    }
+    return NULL;
+}
+
+static void huge_case(const args_t *a, long idx, int variant)
+{
+    size_t total = ((size_t)1 << 32) + 37 + (size_t)(variant == 2 ? 16 : 0), i;
+    uint8_t *msg = (uint8_t *)mmap(NULL, total, PROT_READ | PROT_WRITE, MAP_PRIVATE | MAP_ANONYMOUS | MAP_NORESERVE, -1, 0), key[40], small[32];
+    rng_t r = rng_for(a->seed, 0x4B16, (uint64_t)idx);
+    huge_job_t j[3];
+    pthread_t th[3];
+    static const char *vn[] = {"hash", "hmac", "hash-pending-partial"};
+    if (msg == MAP_FAILED) { perror("mmap"); exit(2); }
+    set_case("{\"h\":\"hash\",\"mode\":\"huge\",\"i\":%ld,\"variant\":\"%s\",\"total\":%zu}", idx, vn[variant], total);
+    /* sparse message: random bytes at the start, around every 2^30 boundary and at the end; zero pages elsewhere */
+    fill_random(&r, msg, 4096);
+    for (i = 1; i <= 4; ++i) fill_random(&r, msg + (i << 30) - 64, i == 4 ? 64 + 37 : 128);
+    fill_random(&r, key, sizeof key);
+    for (i = 0; i < 3; ++i) { j[i].kind = (int)i; j[i].variant = variant; j[i].msg = msg; j[i].total = total; j[i].key = key; j[i].keylen = sizeof key; memset(j[i].out, 0, 32); }
+    for (i = 0; i < 3; ++i) if (pthread_create(&th[i], NULL, huge_thread, &j[i])) { perror("pthread_create"); exit(2); }
+    for (i = 0; i < 3; ++i) pthread_join(th[i], NULL);
+    ++n_eval; ++n_oneshot; n_seq += 2; n_updates += 2 + 5; n_finalize += 3; n_huge_bytes += 3 * (unsigned long long)total;
+    if (memcmp(j[1].out, j[2].out, 32)) digest_mismatch("huge-mismatch:streamed-vs-streamed", "two chunkings (all pieces below 2^32) of a 2^32+ byte message disagree", j[2].out, j[1].out);
+    { char k[96]; snprintf(k, sizeof k, "huge-mismatch:single-call-vs-streamed:%s", vn[variant]);
+      if (memcmp(j[0].out, j[2].out, 32)) digest_mismatch(k, "a single call with >= 2^32 bytes differs from the same bytes fed in pieces below 2^32", j[2].out, j[0].out); }
+    /* and it is not the digest of the message with 2^32 bytes dropped */
+    if (variant == 0) { tinyjambu_hash(small, msg, total - ((size_t)1 << 32)); if (!memcmp(small, j[0].out, 32)) digest_mismatch("huge-mismatch:equals-truncated", "digest equals that of the first (len mod 2^32) bytes", j[2].out, j[0].out); }
+    cls_add(mix64(0x4B16, (uint64_t)variant));
+    emit_sample();
+    munmap(msg, total);
+}
+
 static void stream_random_chunks(const args_t *a, long idx)
 {
     rng_t r = rng_for(a->seed, 0xC4C4, (uint64_t)idx);
@@ -400,6 +465,9 @@ int main(int argc, char **argv)
             size_t kl = rnd(&r, 4) == 0 ? 60 + rnd(&r, 10) : rnd(&r, 300), mlen = rnd(&r, 4096);
             if (mine(&a, idx)) hmac_case(&a, idx, kl, mlen);
         }
+    } else if (!strcmp(a.mode, "huge")) {
+        for (i = 0; i < 3; ++i, ++idx) if (mine(&a, idx) && (a.p1 == i || a.p1 == 9)) huge_case(&a, idx, (int)i);
+        emit_stat("bytes_hashed_in_huge_cases", n_huge_bytes);
     } else { fprintf(stderr, "bad mode\n"); return 2; }
     emit_stat("evaluations", n_eval); emit_stat("model_digests", n_model); emit_stat("oneshot_hash_calls", n_oneshot);
     emit_stat("update_sequences", n_seq); emit_stat("update_calls", n_updates); emit_stat("zero_length_updates", n_zero_updates);
